@@ -197,6 +197,11 @@ def run(chk, tier):
             end = L if l_pos else Lin(128)
             want = ((Lin(0), end), (Lin(128), LEN)) if enough else (((Lin(0), LEN), None) if short_ else 'undecided')
             row += ':ext>=4' if enough else ':ext<4'
+        elif le_len and big and l_small and holds(Lin(131).add(LEN, -1)):
+            # fewer than 4 octets after offset 128: "compliant ≤ 128" and "legacy" ask for the same answer (no extension), so a trace need not
+            # tell them apart
+            row, want = 'compliant<=128:ext<4', ((Lin(0), LEN), None)
+            rows.add('legacy:ext<4')
         else:
             row = 'unclassified'
         rows.add(row)
